@@ -61,7 +61,7 @@ def setup_worker():
 def plan(tier):
     if tier == "thorough":
         return {"runs": 20000, "budget_s": 1500, "chunk": 40, "recheck": 12, "shrink_s": 120}
-    return {"runs": 400, "budget_s": 150, "chunk": 8, "recheck": 6, "shrink_s": 45}
+    return {"runs": 700, "budget_s": 200, "chunk": 8, "recheck": 6, "shrink_s": 45}
 
 
 # ------------------------------------------------------------------ token trees
